@@ -71,6 +71,8 @@ def _strategy(draw):
         # single-valued macros, usable several times in one line (POSRES_FC POSRES_FC POSRES_FC)
         defines["FC_A"] = [_num(draw)]
         defines["FC_B"] = [_num(draw)]
+        # a macro that stands for the whole parameter list, function type included
+        defines["gb_full"] = ["1", _num(draw), _num(draw)]
     tables = {sec: [] for sec in NAT}
     mols = []
     for mi in range(draw(st.sampled_from([1, 1, 2, 3]))):
@@ -105,6 +107,9 @@ def _strategy(draw):
                     params = [func] + [_num(draw) for _ in range(2)] + (["2"] if sec == "dihedrals" else [])
                     inter.append({"sec": sec, "atoms": listed, "params": params, "mode": "explicit"})
                 elif mode == "macro":
+                    if draw(st.integers(0, 3)) == 0:
+                        inter.append({"sec": sec, "atoms": listed, "params": ["gb_full"], "mode": "macro"})
+                        continue
                     inter.append({"sec": sec, "atoms": listed, "params": [func, "gb_1" if sec == "bonds" else "ga_2"],
                                   "mode": "macro"})
                 else:
@@ -300,7 +305,7 @@ def check(spec, ctx):
             if it["mode"] == "explicit":
                 want_sets = [[it["params"]]]
             elif it["mode"] == "macro":
-                want_sets = [[[it["params"][0]] + [v for tok in it["params"][1:] for v in spec["defines"].get(tok, [tok])]]]
+                want_sets = [[[v for tok in it["params"] for v in spec["defines"].get(tok, [tok])]]]
             else:
                 want_sets = resolved[(mi, n)]
             same_key = [j for j in mol["inter"] if (j["sec"], tuple(j["atoms"])) == key]
